@@ -14,7 +14,10 @@ def run(ctx):
     ctx.explanation = EXPL
     ctx.level = 'other'
     ctx.assumptions = ['attribute lists sorted by index (documented precondition)']
+    from .. import schemespec
     for cfg, prog in ctx.programs().items():
         schemes.rule_delegation(ctx, cfg, prog)
         schemes.rule_merge_progress(ctx, cfg, prog)
         schemes.rule_mod_r_subtraction(ctx, cfg, prog)
+        ns = schemespec.rule_scheme(ctx, cfg, prog, which=['precompute', 'adjust_precomputed', 'adjust_nondelegable', 'resamplekey', 'encrypt_precomputed', 'sign_precomputed', 'verify_precomputed'])
+        ctx.floor('R-SCHEME path segments[%s]' % cfg, ns, 40)
